@@ -186,6 +186,9 @@ func runRobust(t *testing.T, ci interface{}, trace bool) *common.Outcome {
 		o.Probe("catalogue_entries")
 	}
 	// bounds
+	if res.CarryOver != "" {
+		o.Fail("retained-bytes-exceed-limit", "carry-over", "%s (MaxHTTPBodySize=%d, stream %d bytes)", res.CarryOver, c.MaxBody, len(s))
+	}
 	if c.ReadLimit > 0 && res.PeakCache > 0 {
 		// live pooled bytes (parser carry-over and body buffers, by capacity) after any Parse call:
 		// the incomplete message may hold ReadLimit + one read; body buffers are bounded separately
@@ -238,6 +241,9 @@ func feedServer(e *env, readLimit, maxBody int, pieces [][]byte) *feedResult {
 		}
 		if live := e.Pool.Live + e.Body.Live; live > res.PeakCache {
 			res.PeakCache = live
+		}
+		if err == nil {
+			res.carryOver(p, readLimit, len(piece), i)
 		}
 		if err != nil {
 			res.Err = err
